@@ -517,6 +517,37 @@ TEXT_EDITS = [
      'qr: rows un-sorted with the column permutation'),
     ('mps.py', '                mask = qnumber_outer_sum([self.qd, self.qD[i], -self.qD[i+1]])', '                mask = qnumber_outer_sum([self.qd, self.qD[i], -self.qD[i]])',
      'violation', ['C02'], 'MPS.__init__: mask built from the wrong label'),
+    # --- variants added with the third seeding round (new rules must stay silent on correct re-spellings)
+    ('autop.py', "        for direction in (0, 1):\n            if edge.nids[direction] in self.nodes:\n                self.nodes[edge.nids[direction]].add_edge_id(edge.eid, 1-direction)",
+     "        for direction in (0, 1):\n            if edge.nids[direction] not in self.nodes:\n                continue\n            self.nodes[edge.nids[direction]].add_edge_id(edge.eid, 1-direction)",
+     'silent', ['C17', 'C19'], 'AutOp.add_connect_edge: continue-guard instead of a positive test (benign)'),
+    ('autop.py', "        for direction in (0, 1):\n            if edge.nids[direction] in self.nodes:\n                self.nodes[edge.nids[direction]].add_edge_id(edge.eid, 1-direction)",
+     "        for direction in (0, 1):\n            if edge.nids[direction] not in self.nodes:\n                break\n            self.nodes[edge.nids[direction]].add_edge_id(edge.eid, 1-direction)",
+     'violation', ['C17'], 'AutOp.add_connect_edge: break leaves the second end unconnected'),
+    ('opgraph.py', "        for direction in (0, 1):\n            if edge.nids[direction] in self.nodes:\n                self.nodes[edge.nids[direction]].add_edge_id(edge.eid, 1-direction)",
+     "        for direction in (0, 1):\n            if edge.nids[direction] in self.nodes:\n                self.nodes[edge.nids[direction]].add_edge_id(edge.eid, direction)",
+     'violation', ['C17', 'C16', 'C05', 'C07'], 'OpGraph.add_connect_edge: edge registered on the wrong side of the node'),
+    ('hamiltonian.py', "    gint0 = 0.5 * (vint                             + np.transpose(vint, (1, 0, 3, 2)))\n    gint1 = 0.5 * (np.transpose(vint, (1, 0, 2, 3)) + np.transpose(vint, (0, 1, 3, 2)))",
+     "    gint0 = np.empty((L, L, L, L), dtype=np.result_type(vint, float))\n    gint0[:] = 0.5 * (vint                             + np.transpose(vint, (1, 0, 3, 2)))\n    gint1 = 0.5 * (np.transpose(vint, (1, 0, 2, 3)) + np.transpose(vint, (0, 1, 3, 2)))",
+     'silent', ['C07'], 'spin molecular build: table preallocated with the promoted type (benign)'),
+    ('hamiltonian.py', "    gint0 = 0.5 * (vint                             + np.transpose(vint, (1, 0, 3, 2)))\n    gint1 = 0.5 * (np.transpose(vint, (1, 0, 2, 3)) + np.transpose(vint, (0, 1, 3, 2)))",
+     "    gint0 = np.empty((L, L, L, L), dtype=vint.dtype)\n    gint0[:] = 0.5 * (vint                             + np.transpose(vint, (1, 0, 3, 2)))\n    gint1 = 0.5 * (np.transpose(vint, (1, 0, 2, 3)) + np.transpose(vint, (0, 1, 3, 2)))",
+     'violation', ['C07'], 'spin molecular build: table preallocated with the type of the input (halves truncated for integer input)'),
+    ('mpo.py', "    for i in range(L + 1):\n        op.qD[i] = qnumber_flatten([op0.qD[i], op1.qD[i]])\n\n    for i in range(L):",
+     "    for i in range(L):\n        op.qD[i] = qnumber_flatten([op0.qD[i], op1.qD[i]])\n    op.qD[L] = qnumber_flatten([op0.qD[L], op1.qD[L]])\n\n    for i in range(L):",
+     'silent', ['C03', 'C02'], 'multiply_mpo: last bond label stored after the loop (benign)'),
+    ('mpo.py', "    for i in range(L + 1):\n        op.qD[i] = qnumber_flatten([op0.qD[i], op1.qD[i]])\n\n    for i in range(L):",
+     "    for i in range(1, L + 1):\n        op.qD[i] = qnumber_flatten([op0.qD[i], op1.qD[i]])\n\n    for i in range(L):",
+     'violation', ['C03', 'C02'], 'multiply_mpo: leading bond keeps the placeholder label'),
+    ('opgraph.py', "        next_nid = max(max(self.nodes.keys()), max(other.nodes.keys())) + 1\n        for nid in shared_nids:\n            other.rename_node_id(nid, next_nid)\n            next_nid += 1",
+     "        first_free = max(max(self.nodes.keys()), max(other.nodes.keys())) + 1\n        for k, nid in enumerate(shared_nids):\n            other.rename_node_id(nid, first_free + k)",
+     'silent', ['C16', 'C19'], 'OpGraph.add: fresh node ids as first_free + k (benign)'),
+    ('opgraph.py', "        next_nid = max(max(self.nodes.keys()), max(other.nodes.keys())) + 1\n        for nid in shared_nids:",
+     "        next_nid = max(self.nodes.keys()) + 1\n        for nid in shared_nids:",
+     'violation', ['C16'], 'OpGraph.add: fresh node ids above the ids of self only'),
+    ('evolution.py', "        for i in reversed(range(1, L)):\n            # right-orthonormalize current psi.A[i]",
+     "        for i in range(L - 1, 0, -1):\n            # right-orthonormalize current psi.A[i]",
+     'silent', ['C08', 'C09', 'C02'], 'single-site TDVP: descending range instead of reversed(range) (benign)'),
 ]
 
 
